@@ -4,7 +4,7 @@ from .. import sweeps
 from ..common import Check, hx, tags_tok
 from .. import jsongen, gen
 
-THEOREMS = ['from_json_is_from_parts', 'canonical_any_buffer', 'serialize_total_on_valid', 'unescape_escape_id', 'escape_injective', 'round_trip', 'round_trip_values', 'canonical_any_spelling', 'escape_constants_from_source', 'safe_char_from_source', 'event_layout_from_source', 'tags_layout_from_source']
+THEOREMS = ['from_json_is_from_parts', 'canonical_any_buffer', 'serialize_total_on_valid', 'unescape_escape_id', 'escape_injective', 'round_trip', 'round_trip_values', 'canonical_any_spelling', 'escape_constants_from_source', 'safe_char_from_source', 'event_layout_from_source', 'tags_layout_from_source', 'tags_writer_from_source']
 
 
 def run():
